@@ -202,7 +202,9 @@ def do_send(c, side, kind, val, ctx, mon):
     msg = message(c.base + len(c.sent[side]), n)
     after_close = bool(c.closed) or bool(c.eof)
     try:
-        ok = c.sock[side].send(msg, nfc.llcp.MSG_DONTWAIT)
+        # (messages are handed over as bytes or bytearray)
+        ok = c.sock[side].send(bytearray(msg) if len(msg) & 1 else msg,
+                               nfc.llcp.MSG_DONTWAIT)
     except nfc.llcp.Error as err:
         if after_close:
             return
